@@ -30,10 +30,27 @@ def gen_c10(rnd, sid):
                 exc_handler=True, run_empty=True, deliver_at=[], same_name=rnd.random() < 0.4)
 
 
+def gen_c10_modal(rnd, sid):
+    """a waiting call whose awaited signal is dispatched inside a nested loop that a handler opened during the wait (one or two levels down): when that handler comes
+    back the wait is over, whatever else is pending"""
+    depth = rnd.randint(1, 2)
+    hs = [dict(cls="U0", hid=0, data=None, scripts=[[["enq", "U1", 0, None, sid.next()], ["enq", "U4", rnd.choice([0, 1]), None, sid.next()], ["proc", "U2"]]])]
+    # U1 (dispatched by the waiting call) opens a nested loop seeded with U3; at the innermost level U3 emits the awaited U2 and U2's handler closes the loop(s)
+    hs.append(dict(cls="U1", hid=1, data=None, scripts=[[["new_loop", "U3", 0, sid.next()]]]))
+    if depth == 2:
+        hs.append(dict(cls="U3", hid=2, data=None, scripts=[[["new_loop", "U3", 0, sid.next()], ["close_loop"]], [["enq", "U2", 0, None, sid.next()]]]))
+    else:
+        hs.append(dict(cls="U3", hid=2, data=None, scripts=[[["enq", "U2", 0, None, sid.next()]]]))
+    hs.append(dict(cls="U2", hid=3, data=None, scripts=[[["close_loop"]], [], []]))
+    hs.append(dict(cls="U4", hid=4, data=None, scripts=[[], [], []]))
+    return dict(op="machine", mode="c10", width=80, screens=[], handlers=hs, init=[["enq", "U0", 0, None, sid.next()]], stdin=[], quit_cb=None, quit_screen=None,
+                exc_handler=True, run_empty=True, deliver_at=[])
+
+
 def generate(rnd, tier):
     n = 500 if tier == "quick" else 6000
     sid = SidCounter()
-    cases = [gen_c10(rnd, sid) for _ in range(n)] + [gen_case(rnd, "loop", sid) for _ in range(n // 2)] + [gen_case(rnd, "app", sid) for _ in range(n // 4)]
+    cases = [gen_c10_modal(rnd, sid) for _ in range(n // 10)] + [gen_c10(rnd, sid) for _ in range(n)] + [gen_case(rnd, "loop", sid) for _ in range(n // 2)] + [gen_case(rnd, "app", sid) for _ in range(n // 4)]
     if tier == "thorough":
         from harness.gen.exhaustive import loop_programs
         cases += list(loop_programs(sid))          # small-scope exhaustive: 3 663 programs
@@ -91,6 +108,12 @@ def monitor(case, obs):
             else:
                 if len(c["prios"]) > 1:
                     return "the non-waiting process_signals() dispatched signals of several priorities: %r" % sorted(c["prios"])
+    if obs["outcome"][0] == "blocked" and open_calls and open_calls[-1]["cls"] is not None and case.get("mode") in ("c10", "loop") and not case.get("screens") and not fq:
+        c = open_calls[-1]
+        end_levels = next((cx.get("levels") for e, cx in reversed(x.x) if cx.get("levels") is not None), None)
+        if c["hit"] and c["depth_h"] == 0 and end_levels == c["levels"]:
+            return ("process_signals(return_after=%s) is still waiting (blocked on an empty queue) although a %s signal was dispatched since it began and the handler during "
+                    "which that happened has finished" % (c["cls"], c["cls"]))
     if obs["outcome"][0] == "blocked" and open_calls and open_calls[-1]["cls"] is None and not open_calls[-1]["nested"] and not case.get("screens"):
         return "the non-waiting process_signals() blocked on an empty queue"
     return None
